@@ -822,7 +822,8 @@ func (c *Ctx) redisClassEdges(r *redisRoles, r1, r2 string) {
 				if idx < 0 {
 					continue
 				}
-				if call, isCall := ir.Resolve(e.Result(idx)).(*ssa.Call); isCall && ir.StaticCallee(call) == r.mapErr {
+				// (looked at through annotating wrappers that hand the class on unchanged, v_kvs_inmem.go)
+				if call := throughClassWrappersV(e.Result(idx), f, "ErrNotExist"); call != nil && ir.StaticCallee(call) == r.mapErr {
 					// the mapped error is the command's error
 					if ex, isEx := ir.Resolve(call.Call.Args[0]).(*ssa.Extract); isEx {
 						if res, isRes := ex.Tuple.(*ssa.Call); isRes {
@@ -834,7 +835,9 @@ func (c *Ctx) redisClassEdges(r *redisRoles, r1, r2 string) {
 				}
 			}
 		}
-		return ok
+		// ... and the command's error reaches no result past the mapping (annotated, re-wrapped) unless the mapped error
+		// was seen not to be the class (v_kvs_inmem.go)
+		return ok && !classLeakV(r, fn, cmd, "ErrNotExist")
 	}
 	c.Decide(r1, r.storage["Get"], "Get: missing key -> ErrNotExist", nil, viaMap(r.storage["Get"], "Get"), "Get does not pass the GET error through the error mapping")
 	c.Decide(r1, r.storage["CasByVersion"], "CasByVersion: missing key -> ErrNotExist", nil, viaMap(r.storage["CasByVersion"], "Get"), "CasByVersion does not map a missing key to ErrNotExist")
